@@ -69,6 +69,15 @@ CLAIMED = {
             "exhaustive small trees and random larger ones, rendered minimally and with redundant parentheses.",
             "Trusted: Lean kernel, table translator, harness+orchestrator. Known finding: generic-type lookahead claims  Id < ... > Id.",
             "DESIGN.md §4 C14"),
+    "C07": ("Lean 4 theorems stating the documented operator semantics (promotion int->long->float, '/' always float, integer '%', "
+            "comparisons, logical/bitwise, string concatenation, casts, bounds-checked arrays) for ALL operand values about an evaluator "
+            "model that mirrors runtime_evaluator.cpp + exact differential correspondence on an exhaustive operator x operand-kind matrix "
+            "and seeded type-directed programs (functions, recursion, loops, arrays)",
+            "Proof on the model for every operand value; the model is executed by the driver (Lean lexer+parser+evaluator on the source "
+            "text) and compared with the real pipeline on echo output and runtime-error positions. PARTIAL: the statement layer is "
+            "definitional in the model, floats are the host's IEEE doubles on both sides.",
+            "Trusted: Lean kernel, harness+orchestrator+generator. Defects found and repaired: string+boolean concatenation, array "
+            "literal double evaluation, cast binding (see known_findings.json).", "DESIGN.md §4 C07"),
 }
 PENDING_REASON = "check not built yet in this revision of /verif (planned: Lean model + correspondence, see DESIGN.md §4)"
 
